@@ -703,8 +703,9 @@ class IndividualParameters:
         :class:`.IndividualParameters`
             Individual parameters object load from the file
         """
+        # a converter (unlike `dtype`) keeps IDs verbatim: 'NA', 'null', 'nan', '' ... are not parsed as missing values
         df = pd.read_csv(
-            path, dtype={"ID": IDType}, float_precision="round_trip"
+            path, converters={"ID": IDType}, float_precision="round_trip"
         ).set_index("ID")
         ip = cls.from_dataframe(df)
 
